@@ -314,10 +314,11 @@ func Compile(module *ir.Module, options Options) (string, TranslationInfo, error
 		options.LangVersion = Version330
 	}
 
-	// Process overrides if pipeline constants are provided.
+	// Resolve overrides: supplied pipeline constants, or the default initialisers when
+	// no value is supplied (an empty constant map still has to resolve the defaults).
 	// This resolves all ExprOverride to concrete Literal/Constant values.
 	// Deep-clone mutable parts to avoid mutating shared state.
-	if len(options.PipelineConstants) > 0 && len(module.Overrides) > 0 {
+	if len(module.Overrides) > 0 {
 		module = ir.CloneModuleForOverrides(module)
 		if err := ir.ProcessOverrides(module, options.PipelineConstants); err != nil {
 			return "", TranslationInfo{}, fmt.Errorf("glsl: process overrides: %w", err)
